@@ -1,0 +1,38 @@
+//! Verification shims (only with `--cfg metrics_verif`).
+#![allow(missing_docs)]
+use crossbeam_epoch::{CompareExchangeError, Guard, Pointer, Shared};
+use std::sync::atomic::Ordering;
+
+/// `crossbeam_epoch::Atomic` whose every operation is a scheduling point.
+#[repr(transparent)]
+pub struct Atomic<T>(crossbeam_epoch::Atomic<T>);
+
+impl<T> std::fmt::Debug for Atomic<T> {
+    fn fmt(&self, f: &mut std::fmt::Formatter<'_>) -> std::fmt::Result { self.0.fmt(f) }
+}
+
+impl<T> Atomic<T> {
+    pub fn null() -> Self { Self(crossbeam_epoch::Atomic::null()) }
+    #[inline] fn a(&self) -> usize { self as *const _ as usize }
+    pub fn load<'g>(&self, ord: Ordering, guard: &'g Guard) -> Shared<'g, T> {
+        metrics::verif::point("ep_load", self.a());
+        self.0.load(ord, guard)
+    }
+    pub fn store<P: Pointer<T>>(&self, new: P, ord: Ordering) {
+        metrics::verif::point("ep_store", self.a());
+        self.0.store(new, ord)
+    }
+    pub fn compare_exchange<'g, P: Pointer<T>>(
+        &self, current: Shared<'_, T>, new: P, success: Ordering, failure: Ordering, guard: &'g Guard,
+    ) -> Result<Shared<'g, T>, CompareExchangeError<'g, T, P>> {
+        metrics::verif::point("ep_cas", self.a());
+        self.0.compare_exchange(current, new, success, failure, guard)
+    }
+}
+
+/// `crossbeam_utils::Backoff` replacement: waiting is visible to the scheduler.
+pub struct Backoff;
+impl Backoff {
+    pub fn new() -> Self { Backoff }
+    pub fn snooze(&self) { metrics::verif::spin() }
+}
